@@ -20,6 +20,7 @@ from . import extract
 VERIF = os.path.dirname(os.path.dirname(os.path.abspath(__file__)))
 REPO = os.environ.get('VF_REPO', '/repo')
 JOBS = int(os.environ.get('VF_JOBS', '16'))
+TIMEOUT_SCALE = float(os.environ.get('VF_TIMEOUT_SCALE', '2'))
 MEM_LIMIT = int(os.environ.get('VF_MEM_GB', '40')) << 30   # address-space limit per tool process (cbmc reserves far more than it touches)
 
 CBMC_CHECKS = ['--bounds-check', '--pointer-check', '--pointer-overflow-check', '--undefined-shift-check',
@@ -226,7 +227,9 @@ class Runner:
         gd = ginfo['dir']
         safe = re.sub(r'[^\w.@-]', '_', u.name)
         log = os.path.join(gd, 'unit_%s.log' % safe)
-        tmo = u.timeout or (120 if self.tier == 'quick' else 900)
+        # the per-unit limits were set from runs on an idle machine; a loaded or slower host took 1.6x as long (a 191 s unit hit its
+        # 300 s limit), so every limit is scaled.  A timeout is a machinery problem (exit 2), never a verdict - the scale only bounds runaways.
+        tmo = int((u.timeout or (120 if self.tier == 'quick' else 900)) * TIMEOUT_SCALE)
         res = dict(unit=u.name, enforce=u.enforce, replace=u.replace, functions=u.functions, loops=u.loops,
                    bounded=u.bounded, note=u.note, status='error', obligations=0, discharged=0, failed=[],
                    sentinel=None, seconds=0.0, solver='cbmc 6.11.0 --sat-solver cadical', detail='')
@@ -339,6 +342,14 @@ class Runner:
         npost = len([1 for o_ in obl if o_[0].startswith(u.enforce + '.postcondition') or (u.light and 'postcondition' in o_[2])])
         if trace_property:
             res['status'] = 'traced'
+            return res
+        limit = [f_ for f_ in failed if f_['status'] == 'FAILURE' and f_['description'].startswith('vf_model_limit')]
+        if limit:
+            # the code left the envelope in which the /verif-side model of a library routine is exact: everything downstream of that
+            # point is meaningless, so the unit is undecided (machinery problem, exit 2) - never a violation
+            res['status'] = 'error'
+            res['detail'] = 'model limit exceeded, unit undecided: ' + ' | '.join(sorted(set(f_['description'] for f_ in limit)))[:400]
+            res['discharged'] = 0
             return res
         if u.never_returns:
             reach = [o_ for o_ in obl if 'vf_reach_exit' in o_[2]]
